@@ -8,6 +8,8 @@
 //! ManifestCustomCharEscaper output and the real lexer on it, compared with `escape` / `lex_string`.
 use radix_common::prelude::*;
 use radix_engine_interface::prelude::*;
+use radix_engine_interface::blueprints::{package::*, account::*, identity::*, access_controller::*, resource::*, consensus_manager::*};
+use radix_engine_interface::object_modules::{royalty::*, metadata::*, role_assignment::*};
 use radix_transactions::data::ManifestCustomCharEscaper;
 use radix_transactions::manifest::lexer::tokenize;
 use radix_transactions::manifest::parser::{Parser, ParserErrorKind, PARSER_MAX_DEPTH};
@@ -230,6 +232,124 @@ fn gen_instructions(rng: &mut Rng, v2: bool, subintent: bool, children: u32, nbl
     out
 }
 
+
+// ---- deterministic boundary families (identical for every seed) ---------------------------------------------
+fn fam_strings() -> Vec<(String, String)> {
+    let cps: [u32; 36] = [0, 8, 9, 0xa, 0xc, 0xd, 0x1f, 0x20, 0x22, 0x27, 0x2f, 0x5c, 0x7e, 0x7f, 0x80, 0x9f, 0xa0, 0xad, 0x300, 0x301, 0x200b, 0x202e, 0x2028, 0xd7ff, 0xe000, 0xfeff,
+        0xfffd, 0xfffe, 0xffff, 0x10000, 0x1f600, 0xe0001, 0xeffff, 0x10fffd, 0x10ffff, 0x61];
+    let mut v = vec![("str_empty".to_string(), String::new())];
+    for c in cps { let ch = char::from_u32(c).unwrap();
+        v.push((format!("str_alone_{:x}", c), ch.to_string()));
+        v.push((format!("str_middle_{:x}", c), format!("a{}b", ch)));
+        v.push((format!("str_twice_at_end_{:x}", c), format!("z{}{}", ch, ch))); }
+    v.push(("str_literal_backslash_u".into(), "\\u0041\\ud83d\\n".into()));
+    v.push(("str_all_two_char_escapes".into(), "\"\\/\u{8}\u{c}\n\r\t".into()));
+    v.push(("str_surrogate_boundaries".into(), "\u{d7ff}\u{e000}\u{ffff}\u{10000}\u{10ffff}".into()));
+    v
+}
+fn fam_values() -> Vec<(String, ManifestValue)> {
+    use ManifestValue as V;
+    let mut v: Vec<(String, ManifestValue)> = vec![];
+    let mut add = |c: &str, x: ManifestValue| v.push((format!("val_{}", c), x));
+    add("bool_true", V::Bool { value: true }); add("bool_false", V::Bool { value: false });
+    add("i8_min", V::I8 { value: i8::MIN }); add("i8_max", V::I8 { value: i8::MAX }); add("i8_m1", V::I8 { value: -1 }); add("i8_0", V::I8 { value: 0 });
+    add("i16_min", V::I16 { value: i16::MIN }); add("i16_max", V::I16 { value: i16::MAX });
+    add("i32_min", V::I32 { value: i32::MIN }); add("i32_max", V::I32 { value: i32::MAX });
+    add("i64_min", V::I64 { value: i64::MIN }); add("i64_max", V::I64 { value: i64::MAX });
+    add("i128_min", V::I128 { value: i128::MIN }); add("i128_max", V::I128 { value: i128::MAX });
+    add("u8_0", V::U8 { value: 0 }); add("u8_max", V::U8 { value: u8::MAX }); add("u16_max", V::U16 { value: u16::MAX }); add("u32_max", V::U32 { value: u32::MAX });
+    add("u64_max", V::U64 { value: u64::MAX }); add("u128_max", V::U128 { value: u128::MAX }); add("u128_0", V::U128 { value: 0 });
+    for d in [0u8, 1, 2, 3, 127, 128, 254, 255] { for n in 0..3usize {
+        add(&format!("enum_{}_{}fields", d, n), V::Enum { discriminator: d, fields: (0..n).map(|k| V::U8 { value: k as u8 }).collect() }); } }
+    add("enum_in_enum_some_none", V::Enum { discriminator: 1, fields: vec![V::Enum { discriminator: 0, fields: vec![] }] });
+    add("enum_ok_err", V::Tuple { fields: vec![V::Enum { discriminator: 0, fields: vec![V::Bool { value: true }] }, V::Enum { discriminator: 1, fields: vec![V::String { value: "e".into() }] }] });
+    add("tuple_empty", V::Tuple { fields: vec![] }); add("tuple_single", V::Tuple { fields: vec![V::U8 { value: 1 }] });
+    add("tuple_of_empty_tuples", V::Tuple { fields: vec![V::Tuple { fields: vec![] }, V::Tuple { fields: vec![] }] });
+    for k in [ManifestValueKind::Bool, ManifestValueKind::I8, ManifestValueKind::U16, ManifestValueKind::U128, ManifestValueKind::String, ManifestValueKind::Enum, ManifestValueKind::Array, ManifestValueKind::Tuple, ManifestValueKind::Map,
+              ManifestValueKind::Custom(ManifestCustomValueKind::Address), ManifestValueKind::Custom(ManifestCustomValueKind::Bucket), ManifestValueKind::Custom(ManifestCustomValueKind::Proof),
+              ManifestValueKind::Custom(ManifestCustomValueKind::Expression), ManifestValueKind::Custom(ManifestCustomValueKind::Blob), ManifestValueKind::Custom(ManifestCustomValueKind::Decimal),
+              ManifestValueKind::Custom(ManifestCustomValueKind::PreciseDecimal), ManifestValueKind::Custom(ManifestCustomValueKind::NonFungibleLocalId), ManifestValueKind::Custom(ManifestCustomValueKind::AddressReservation)] {
+        add(&format!("array_empty_{:?}", k).replace(['(', ')'], "_"), V::Array { element_value_kind: k, elements: vec![] });
+        add(&format!("map_empty_u8_{:?}", k).replace(['(', ')'], "_"), V::Map { key_value_kind: ManifestValueKind::U8, value_value_kind: k, entries: vec![] });
+    }
+    add("bytes_empty", V::Array { element_value_kind: ManifestValueKind::U8, elements: vec![] });
+    add("bytes_single_00", V::Array { element_value_kind: ManifestValueKind::U8, elements: vec![V::U8 { value: 0 }] });
+    add("bytes_ff_0f_f0", V::Array { element_value_kind: ManifestValueKind::U8, elements: vec![V::U8 { value: 0xff }, V::U8 { value: 0x0f }, V::U8 { value: 0xf0 }] });
+    add("array_single_string", V::Array { element_value_kind: ManifestValueKind::String, elements: vec![V::String { value: "\"\\\n".into() }] });
+    add("array_of_bytes", V::Array { element_value_kind: ManifestValueKind::Array, elements: vec![V::Array { element_value_kind: ManifestValueKind::U8, elements: vec![V::U8 { value: 1 }] }, V::Array { element_value_kind: ManifestValueKind::U8, elements: vec![] }] });
+    add("map_single", V::Map { key_value_kind: ManifestValueKind::String, value_value_kind: ManifestValueKind::U8, entries: vec![(V::String { value: "k=>".into() }, V::U8 { value: 1 })] });
+    add("map_two_nested", V::Map { key_value_kind: ManifestValueKind::U8, value_value_kind: ManifestValueKind::Map, entries: vec![
+        (V::U8 { value: 1 }, V::Map { key_value_kind: ManifestValueKind::U8, value_value_kind: ManifestValueKind::U8, entries: vec![] }),
+        (V::U8 { value: 2 }, V::Map { key_value_kind: ManifestValueKind::U8, value_value_kind: ManifestValueKind::U8, entries: vec![(V::U8 { value: 3 }, V::U8 { value: 4 })] })] });
+    // nesting exactly around the depth limits of the parser (20) and of manifest SBOR (24)
+    for (name, wrap) in [("tuple", 0u8), ("enum", 1), ("array", 2), ("map", 3)] { for d in [17usize, 18, 19, 20, 21, 22] {
+        let mut x = V::U8 { value: 7 };
+        for _ in 0..d { x = match wrap { 0 => V::Tuple { fields: vec![x] }, 1 => V::Enum { discriminator: 1, fields: vec![x] },
+            2 => { let k = match &x { V::U8 { .. } => ManifestValueKind::U16, V::Array { .. } => ManifestValueKind::Array, _ => ManifestValueKind::Tuple }; if let V::U8 { value } = x { V::Array { element_value_kind: k, elements: vec![V::U16 { value: value as u16 }] } } else { V::Array { element_value_kind: k, elements: vec![x] } } }
+            _ => { let k = match &x { V::U8 { .. } => ManifestValueKind::U8, _ => ManifestValueKind::Map }; V::Map { key_value_kind: ManifestValueKind::Bool, value_value_kind: k, entries: vec![(V::Bool { value: true }, x)] } } }; }
+        add(&format!("depth_{}_{}", name, d), x); } }
+    // custom leaves: every kind
+    let nf = |id: NonFungibleLocalId| custom(ManifestCustomValue::NonFungibleLocalId(from_non_fungible_local_id(id)));
+    add("nfgid_alias_tuple", V::Tuple { fields: vec![custom(ManifestCustomValue::Address(ManifestAddress::Static(*XRD.as_node_id()))), nf(NonFungibleLocalId::integer(7))] });
+    add("nfgid_like_but_component", V::Tuple { fields: vec![custom(ManifestCustomValue::Address(ManifestAddress::Static(*comp_addr(1).as_node_id()))), nf(NonFungibleLocalId::integer(7))] });
+    add("nfgid_like_but_three", V::Tuple { fields: vec![custom(ManifestCustomValue::Address(ManifestAddress::Static(*XRD.as_node_id()))), nf(NonFungibleLocalId::integer(7)), V::U8 { value: 0 }] });
+    add("nfgid_like_swapped", V::Tuple { fields: vec![nf(NonFungibleLocalId::integer(7)), custom(ManifestCustomValue::Address(ManifestAddress::Static(*XRD.as_node_id())))] });
+    add("nfid_integer_0", nf(NonFungibleLocalId::integer(0))); add("nfid_integer_max", nf(NonFungibleLocalId::integer(u64::MAX)));
+    add("nfid_string_1", nf(NonFungibleLocalId::string("a").unwrap())); add("nfid_string_64", nf(NonFungibleLocalId::string("a".repeat(64)).unwrap()));
+    add("nfid_bytes_1", nf(NonFungibleLocalId::bytes(vec![0]).unwrap())); add("nfid_bytes_64", nf(NonFungibleLocalId::bytes(vec![0xff; 64]).unwrap()));
+    add("nfid_ruid_zero", nf(NonFungibleLocalId::ruid([0; 32]))); add("nfid_ruid_ff", nf(NonFungibleLocalId::ruid([0xff; 32])));
+    add("decimal_min", custom(ManifestCustomValue::Decimal(from_decimal(&Decimal::MIN)))); add("decimal_max", custom(ManifestCustomValue::Decimal(from_decimal(&Decimal::MAX))));
+    add("decimal_zero", custom(ManifestCustomValue::Decimal(from_decimal(&Decimal::ZERO)))); add("decimal_1atto", custom(ManifestCustomValue::Decimal(from_decimal(&Decimal::from_attos(I192::ONE)))));
+    add("decimal_m1atto", custom(ManifestCustomValue::Decimal(from_decimal(&Decimal::from_attos(-I192::ONE)))));
+    add("pdecimal_min", custom(ManifestCustomValue::PreciseDecimal(from_precise_decimal(&PreciseDecimal::MIN)))); add("pdecimal_max", custom(ManifestCustomValue::PreciseDecimal(from_precise_decimal(&PreciseDecimal::MAX))));
+    add("pdecimal_1sub", custom(ManifestCustomValue::PreciseDecimal(from_precise_decimal(&PreciseDecimal::from_precise_subunits(I256::ONE)))));
+    add("expr_worktop", custom(ManifestCustomValue::Expression(ManifestExpression::EntireWorktop))); add("expr_authzone", custom(ManifestCustomValue::Expression(ManifestExpression::EntireAuthZone)));
+    add("blob_ref", custom(ManifestCustomValue::Blob(ManifestBlobRef(hash([0u8]).0))));
+    add("address_package", custom(ManifestCustomValue::Address(ManifestAddress::Static(*FAUCET_PACKAGE.as_node_id()))));
+    add("address_resource", custom(ManifestCustomValue::Address(ManifestAddress::Static(*XRD.as_node_id()))));
+    { let mut b = [0u8; NodeId::LENGTH]; b[0] = EntityType::InternalFungibleVault as u8; add("address_internal", custom(ManifestCustomValue::Address(ManifestAddress::Static(NodeId(b))))); }
+    v
+}
+/// single-call manifests that the decompiler prints with an alias instruction, plus their non-alias neighbours
+fn fam_calls() -> Vec<(String, InstructionV2)> {
+    let args = || ManifestValue::Tuple { fields: vec![ManifestValue::U8 { value: 1 }, ManifestValue::String { value: "x".into() }] };
+    let mut v: Vec<(String, InstructionV2)> = vec![];
+    let f = |p: PackageAddress, b: &str, func: &str| InstructionV2::CallFunction(CallFunction { package_address: ManifestPackageAddress::Static(p), blueprint_name: b.into(), function_name: func.into(), args: ManifestValue::Tuple { fields: vec![ManifestValue::U8 { value: 1 }, ManifestValue::String { value: "x".into() }] } });
+    for (c, p, b, func) in [
+        ("publish_package", PACKAGE_PACKAGE, PACKAGE_BLUEPRINT, PACKAGE_PUBLISH_WASM_IDENT), ("publish_package_advanced", PACKAGE_PACKAGE, PACKAGE_BLUEPRINT, PACKAGE_PUBLISH_WASM_ADVANCED_IDENT),
+        ("create_account_advanced", ACCOUNT_PACKAGE, ACCOUNT_BLUEPRINT, ACCOUNT_CREATE_ADVANCED_IDENT), ("create_account", ACCOUNT_PACKAGE, ACCOUNT_BLUEPRINT, ACCOUNT_CREATE_IDENT),
+        ("create_identity_advanced", IDENTITY_PACKAGE, IDENTITY_BLUEPRINT, IDENTITY_CREATE_ADVANCED_IDENT), ("create_identity", IDENTITY_PACKAGE, IDENTITY_BLUEPRINT, IDENTITY_CREATE_IDENT),
+        ("create_access_controller", ACCESS_CONTROLLER_PACKAGE, ACCESS_CONTROLLER_BLUEPRINT, ACCESS_CONTROLLER_CREATE_IDENT),
+        ("create_fungible", RESOURCE_PACKAGE, FUNGIBLE_RESOURCE_MANAGER_BLUEPRINT, FUNGIBLE_RESOURCE_MANAGER_CREATE_IDENT),
+        ("create_fungible_supply", RESOURCE_PACKAGE, FUNGIBLE_RESOURCE_MANAGER_BLUEPRINT, FUNGIBLE_RESOURCE_MANAGER_CREATE_WITH_INITIAL_SUPPLY_IDENT),
+        ("create_non_fungible", RESOURCE_PACKAGE, NON_FUNGIBLE_RESOURCE_MANAGER_BLUEPRINT, NON_FUNGIBLE_RESOURCE_MANAGER_CREATE_IDENT),
+        ("create_non_fungible_supply", RESOURCE_PACKAGE, NON_FUNGIBLE_RESOURCE_MANAGER_BLUEPRINT, NON_FUNGIBLE_RESOURCE_MANAGER_CREATE_WITH_INITIAL_SUPPLY_IDENT),
+        // neighbours that must NOT be aliased: right function on the wrong package / blueprint
+        ("no_alias_wrong_package", ACCOUNT_PACKAGE, PACKAGE_BLUEPRINT, PACKAGE_PUBLISH_WASM_IDENT), ("no_alias_wrong_blueprint", RESOURCE_PACKAGE, NON_FUNGIBLE_RESOURCE_MANAGER_BLUEPRINT, FUNGIBLE_RESOURCE_MANAGER_CREATE_WITH_INITIAL_SUPPLY_IDENT),
+    ] { v.push((format!("call_{}", c), f(p, b, func))); }
+    let m = |a: GlobalAddress, name: &str| InstructionV2::CallMethod(CallMethod { address: ManifestGlobalAddress::Static(a), method_name: name.into(), args: args() });
+    let nfres = { let mut b = [0u8; NodeId::LENGTH]; b[0] = EntityType::GlobalNonFungibleResourceManager as u8; b[29] = 7; ResourceAddress::new_or_panic(b) };
+    v.push(("call_claim_package_royalties".into(), m(FAUCET_PACKAGE.into(), PACKAGE_CLAIM_ROYALTIES_IDENT)));
+    v.push(("call_claim_royalties_on_component_no_alias".into(), m(comp_addr(1).into(), PACKAGE_CLAIM_ROYALTIES_IDENT)));
+    v.push(("call_mint_fungible".into(), m(XRD.into(), FUNGIBLE_RESOURCE_MANAGER_MINT_IDENT)));
+    v.push(("call_mint_non_fungible".into(), m(nfres.into(), NON_FUNGIBLE_RESOURCE_MANAGER_MINT_IDENT)));
+    v.push(("call_mint_ruid".into(), m(nfres.into(), NON_FUNGIBLE_RESOURCE_MANAGER_MINT_RUID_IDENT)));
+    v.push(("call_mint_ruid_on_fungible_no_alias".into(), m(XRD.into(), NON_FUNGIBLE_RESOURCE_MANAGER_MINT_RUID_IDENT)));
+    v.push(("call_create_validator".into(), m(CONSENSUS_MANAGER.into(), CONSENSUS_MANAGER_CREATE_VALIDATOR_IDENT)));
+    v.push(("call_create_validator_on_component_no_alias".into(), m(comp_addr(1).into(), CONSENSUS_MANAGER_CREATE_VALIDATOR_IDENT)));
+    let ga = || ManifestGlobalAddress::Static(comp_addr(1).into());
+    for (c, name) in [("set_royalty", COMPONENT_ROYALTY_SET_ROYALTY_IDENT), ("lock_royalty", COMPONENT_ROYALTY_LOCK_ROYALTY_IDENT), ("claim_royalties", COMPONENT_ROYALTY_CLAIM_ROYALTIES_IDENT), ("royalty_other", "other")] {
+        v.push((format!("call_royalty_{}", c), InstructionV2::CallRoyaltyMethod(CallRoyaltyMethod { address: ga(), method_name: name.into(), args: args() }))); }
+    for (c, name) in [("set", METADATA_SET_IDENT), ("remove", METADATA_REMOVE_IDENT), ("lock", METADATA_LOCK_IDENT), ("get", METADATA_GET_IDENT)] {
+        v.push((format!("call_metadata_{}", c), InstructionV2::CallMetadataMethod(CallMetadataMethod { address: ga(), method_name: name.into(), args: args() }))); }
+    for (c, name) in [("set_owner", ROLE_ASSIGNMENT_SET_OWNER_IDENT), ("lock_owner", ROLE_ASSIGNMENT_LOCK_OWNER_IDENT), ("set", ROLE_ASSIGNMENT_SET_IDENT), ("get", ROLE_ASSIGNMENT_GET_IDENT)] {
+        v.push((format!("call_role_assignment_{}", c), InstructionV2::CallRoleAssignmentMethod(CallRoleAssignmentMethod { address: ga(), method_name: name.into(), args: args() }))); }
+    let mut vb = [0u8; NodeId::LENGTH]; vb[0] = EntityType::InternalFungibleVault as u8;
+    for (c, name) in [("recall", VAULT_RECALL_IDENT), ("freeze", VAULT_FREEZE_IDENT), ("unfreeze", VAULT_UNFREEZE_IDENT), ("recall_non_fungibles", NON_FUNGIBLE_VAULT_RECALL_NON_FUNGIBLES_IDENT), ("other", "other")] {
+        v.push((format!("call_vault_{}", c), InstructionV2::CallDirectVaultMethod(CallDirectVaultMethod { address: InternalAddress::new_or_panic(vb), method_name: name.into(), args: args() }))); }
+    v
+}
+
 fn main() {
     let args = Args::parse();
     let mut report = Report::new(
@@ -242,15 +362,25 @@ fn main() {
     let mut cw = CaseWriter::new("RV.Corr.C30_run RV.Model.C30_Text RV.Model.C31_Lexer RV.Model.C30_Value", "check");
     let root = Rng::new(args.seed);
     let net = NetworkDefinition::simulator();
-    for i in 0..args.cases {
+    let (fstrings, fvalues, fcalls) = (fam_strings(), fam_values(), fam_calls());
+    // family manifests: every alias call as V2 and V1, and every family value as the argument of a call (V2)
+    let mut fmanifests: Vec<(String, u64, Vec<InstructionV2>)> = vec![];
+    for (c, ins) in &fcalls { fmanifests.push((format!("m_v2_{}", c), 0, vec![ins.clone()])); fmanifests.push((format!("m_v1_{}", c), 2, vec![ins.clone()])); }
+    for (c, v) in &fvalues { fmanifests.push((format!("m_arg_{}", c), 0, vec![InstructionV2::CallMethod(CallMethod { address: ManifestGlobalAddress::Static(comp_addr(1).into()), method_name: "m".into(), args: ManifestValue::Tuple { fields: vec![v.clone()] } })])); }
+    let fam_len = 3 * fstrings.len().max(fvalues.len()).max(fmanifests.len());
+    let mut fam_classes: Vec<String> = vec![];
+    for i in 0..args.cases.max(fam_len) {
         let mut rng = root.fork(i as u64);
         if i % 3 == 0 {
-            let kind = rng.below(4); // 0 V2, 1 SubintentV2, 2 V1, 3 SystemV1
+            let fam_m = fmanifests.get(i / 3);
+            if let Some((c, _, _)) = fam_m { report.count(c); fam_classes.push(c.clone()); }
+            let kind = match fam_m { Some((_, k, _)) => *k, None => rng.below(4) }; // 0 V2, 1 SubintentV2, 2 V1, 3 SystemV1
             let v2 = kind < 2; let subintent = kind == 1;
-            let nblobs = rng.below(3) as u8;
+            let nblobs = if fam_m.is_some() { 1 } else { rng.below(3) as u8 };
             let children = if v2 { rng.below(3) as u32 } else { 0 };
             let prealloc = if kind == 3 { rng.below(3) as u32 } else { 0 };
             let mut ins = gen_instructions(&mut rng, v2, subintent, children, nblobs, prealloc);
+            if let Some((_, _, pins)) = fam_m { ins = pins.clone(); }
             if subintent { ins.push(InstructionV2::YieldToParent(YieldToParent::empty())); }
             let blobs: IndexMap<Hash, Vec<u8>> = (0..nblobs).map(|k| (hash([k]), vec![k])).collect();
             let child_set: IndexSet<ChildSubintentSpecifier> = (0..children).map(|k| ChildSubintentSpecifier { hash: SubintentHash(hash([9, k as u8])) }).collect();
@@ -276,7 +406,12 @@ fn main() {
             let input = json!({"kind": kind, "instructions": format!("{:?}", ins)});
             match result {
                 Err(p) => report.oracle_failure(i, "", &format!("decompile/compile panicked: {}", p), input),
-                Ok(Err(e)) => report.oracle_failure(i, "", &format!("decompiled text does not compile: {}", &e[..e.len().min(1500)]), input),
+                Ok(Err(e)) => {
+                    // a manifest whose instructions cannot even be encoded (manifest SBOR depth limit) is not a manifest: not a failure
+                    let encodable = manifest_encode(&ins).is_ok();
+                    if encodable { report.oracle_failure(i, if e.contains("MaxDepthExceeded") { "value-depth-21" } else { "" }, &format!("decompiled text does not compile (instructions are manifest-encodable): {}", &e[..e.len().min(1500)]), input); }
+                    else { report.count("not_encodable_skipped"); }
+                }
                 Ok(Ok((text, same))) => { report.count("roundtrip_ok"); if !same { report.oracle_failure(i, "", &format!("compile(decompile(m)) != m; text:\n{}", &text[..text.len().min(1500)]), input); } if i < 2 { report.sample(json!({"text": text})); } }
             }
             cw.push("CNone".to_string());
@@ -285,10 +420,12 @@ fn main() {
             let enc = AddressBech32Encoder::new(&net);
             let mut ids = Ids { buckets: vec![0, 1, 2], proofs: vec![0, 1], res: vec![0], named: 2, nblobs: 2 };
             let mut v = gen_value(&mut rng, &mut ids, 4, true);
+            let fam_v = fvalues.get(i / 3);
+            if let Some((c, pv)) = fam_v { v = pv.clone(); report.count(c); fam_classes.push(c.clone()); }
             // occasionally a deep chain around it, to reach the parser's depth limit (20)
-            if rng.chance(1, 6) { let d = *rng.pick(&[10usize, 16, 17, 18, 19, 20, 21]); for k in 0..d { v = match k % 3 { 0 => ManifestValue::Tuple { fields: vec![v] }, 1 => ManifestValue::Enum { discriminator: 1, fields: vec![v] }, _ => ManifestValue::Array { element_value_kind: ManifestValueKind::Enum, elements: vec![v] } }; } }
+            if fam_v.is_none() && rng.chance(1, 6) { let d = *rng.pick(&[10usize, 16, 17, 18, 19, 20, 21]); for k in 0..d { v = match k % 3 { 0 => ManifestValue::Tuple { fields: vec![v] }, 1 => ManifestValue::Enum { discriminator: 1, fields: vec![v] }, _ => ManifestValue::Array { element_value_kind: ManifestValueKind::Enum, elements: vec![v] } }; } }
             // a NonFungibleGlobalId-shaped tuple now and then
-            if rng.chance(1, 8) { v = ManifestValue::Tuple { fields: vec![custom(ManifestCustomValue::Address(ManifestAddress::Static(*XRD.as_node_id()))), custom(ManifestCustomValue::NonFungibleLocalId(from_non_fungible_local_id(NonFungibleLocalId::integer(7)))), ] }; if rng.bool() { v = ManifestValue::Tuple { fields: vec![v, ManifestValue::U8 { value: 1 }] }; } }
+            if fam_v.is_none() && rng.chance(1, 8) { v = ManifestValue::Tuple { fields: vec![custom(ManifestCustomValue::Address(ManifestAddress::Static(*XRD.as_node_id()))), custom(ManifestCustomValue::NonFungibleLocalId(from_non_fungible_local_id(NonFungibleLocalId::integer(7)))), ] }; if rng.bool() { v = ManifestValue::Tuple { fields: vec![v, ManifestValue::U8 { value: 1 }] }; } }
             let text = fmt_value(&v, &enc, rng.bool());
             let toks = match catch({ let t = text.clone(); move || tokenize(&t) }) { Ok(Ok(t)) => t, other => { report.oracle_failure(i, "", &format!("printed value does not lex: {:?}", other.map(|r| r.map(|_| ()))), json!({"text": text})); cw.push("CNone".into()); continue; } };
             let mut parsed = run_parser(&toks);
@@ -303,7 +440,8 @@ fn main() {
             report.count(if parsed.contains("(Some (A") || parsed.contains("(Some ANone") { "mutated_parsed" } else { "mutated_parse_error" });
             cw.push(format!("CParse {} {}", coq_list(m.iter().map(|t| tok_coq(&t.token))), parsed));
         } else {
-            let s = gen_string(&mut rng) + &gen_string(&mut rng);
+            let mut s = gen_string(&mut rng) + &gen_string(&mut rng);
+            if let Some((c, ps)) = fstrings.get(i / 3) { s = ps.clone(); report.count(c); fam_classes.push(c.clone()); }
             let printed = format!("{}", ManifestCustomCharEscaper::escaped(s.as_str()));
             let flags: Vec<(u32, bool)> = s.chars().map(|c| (c as u32, radix_rust::unicode::rust_1_81_should_unicode_escape_in_debug_str(c))).collect();
             report.case(&s, printed.len() != s.len() + 2);
@@ -316,6 +454,7 @@ fn main() {
             cw.push(format!("CEscape {} {}", coq_list(flags.iter().map(|(c, f)| format!("({}, {})", c, coq_bool(*f)))), coq_list(printed.chars().map(|c| format!("{}", c as u32)))));
         }
     }
+    for c in &fam_classes { report.floor(c, 1); }
     let n = args.cases as u64;
     report.floor("roundtrip_ok", n / 6);
     report.floor("value_parsed", n / 8);
